@@ -1,4 +1,4 @@
-#define KF_EXCL_C12_number_ctor_uninit 1
+#define KF_EXCL_C12_ctor_payload_uninit 1
 #define PRE_K 2
 #define PRE_N 2
 #define PRE_E1 5
